@@ -71,6 +71,12 @@ Theorem C09_relink_unlink_first_refuted : forall q i s, r_names (rprefix 1 (reli
 Proof. exact relink_unlink_first_refuted. Qed.
 Print Assumptions C09_relink_unlink_first_refuted.
 
+(* non-vacuity of the re-link statements: name 2 on inode 7, re-linked onto inode 5 *)
+Example ex_relink : let s := mk_rstate (fun p => if N.eqb p 2 then Some 7%N else if N.eqb p 1 then Some 5%N else None) None in
+  map (fun k => r_names (rprefix k (relink_prog 2 5) s) 2%N) [0; 1; 2]%nat = [Some 7%N; Some 7%N; Some 5%N] /\
+  r_names (rprefix 2 (relink_prog 2 5) s) 1%N = Some 5%N.
+Proof. vm_compute. split; reflexivity. Qed.
+
 (* non-vacuity: the call sequences observed on the real binary are in the classes, for a 200000-byte source *)
 Definition ex_e : sentry := mk_sentry [1%N] false 200000 1600000000000000000 7 false.
 Definition ex_cfg : cfg := mk_cfg false false 50 false false false false 98304 100.
